@@ -1,5 +1,26 @@
-// XML parsing / infoset / printing operations.
+// XML parsing / infoset / printing operations (properties C01-C04, C11).
+use crate::enc::encode as e;
+use std::rc::Rc;
 use xml_dom::XmlDocument;
+use xml_info as info;
+use xml_info::{
+    Attribute, Character, Comment, Document, DocumentTypeDeclaration, Element, HasQName, Notation,
+    ProcessingInstruction, UnexpandedEntityReference,
+};
+
+fn opt(s: Option<&str>) -> String {
+    match s {
+        Some(v) => e(v),
+        None => "~".to_string(),
+    }
+}
+
+fn qn(prefix: Option<&str>, local: &str) -> String {
+    match prefix {
+        Some(p) => e(&format!("{}:{}", p, local)),
+        None => e(local),
+    }
+}
 
 // accept <text>: outcome class of XmlDocument::from_raw:  ok | rest | err
 pub fn accept(args: &[String]) -> String {
@@ -13,5 +34,197 @@ pub fn accept(args: &[String]) -> String {
             }
         }
         Err(_) => "err".to_string(),
+    }
+}
+
+pub fn info_err_class(err: &info::error::Error) -> &'static str {
+    match err {
+        info::error::Error::NotFoundReference(_) => "reference",
+        info::error::Error::InvalidData(_) => "invalid",
+        info::error::Error::Parse(_) => "syntax",
+        _ => "other",
+    }
+}
+
+fn pieces(values: &[info::XmlAttributeValue]) -> String {
+    let mut out = String::new();
+    for v in values {
+        match v {
+            info::XmlAttributeValue::Char(c) => {
+                let c = c.as_char_reference().unwrap();
+                out.push_str(&format!("c({},{})", e(c.borrow().num()), c.borrow().radix()));
+            }
+            info::XmlAttributeValue::Entity(r) => {
+                let r = r.as_unexpanded().unwrap();
+                out.push_str(&format!("e({})", e(r.borrow().name())));
+            }
+            info::XmlAttributeValue::Text(t) => {
+                let t = t.as_text().unwrap();
+                out.push_str(&format!("t({})", e(t.borrow().character_code())));
+            }
+        }
+    }
+    out
+}
+
+fn entity_pieces(values: &[info::XmlEntityValue]) -> String {
+    let mut out = String::new();
+    for v in values {
+        match v {
+            info::XmlEntityValue::Character(d, r) => out.push_str(&format!("c({},{})", e(d), r)),
+            info::XmlEntityValue::Entity(n) => out.push_str(&format!("e({})", e(n))),
+            info::XmlEntityValue::Parameter(n) => out.push_str(&format!("p({})", e(n))),
+            info::XmlEntityValue::Text(t) => out.push_str(&format!("t({})", e(t))),
+        }
+    }
+    out
+}
+
+fn dump_pi(p: &info::XmlNode<info::XmlProcessingInstruction>) -> String {
+    // content() is "" both for a PI without data and for one with empty data; Display tells them apart
+    let text = format!("{}", p.borrow());
+    let has_data = text.len() > p.borrow().target().len() + 4;
+    format!(
+        "P({},{})",
+        e(p.borrow().target()),
+        if has_data { e(p.borrow().content()) } else { "~".to_string() }
+    )
+}
+
+fn dump_item(item: &Rc<info::XmlItem>, depth: usize) -> String {
+    if depth > 2000 {
+        return "DEPTH".to_string();
+    }
+    match &**item {
+        info::XmlItem::Text(t) => format!("t({})", e(t.borrow().character_code())),
+        info::XmlItem::CharReference(c) => {
+            format!("c({},{})", e(c.borrow().num()), c.borrow().radix())
+        }
+        info::XmlItem::Unexpanded(r) => format!("e({})", e(r.borrow().name())),
+        info::XmlItem::CData(c) => format!("d({})", e(c.borrow().character_code())),
+        info::XmlItem::PI(p) => dump_pi(p),
+        info::XmlItem::Comment(c) => format!("C({})", e(c.borrow().comment())),
+        info::XmlItem::Element(el) => dump_element(el, depth),
+        _ => "?".to_string(),
+    }
+}
+
+fn dump_element(el: &info::XmlNode<info::XmlElement>, depth: usize) -> String {
+    let el = el.borrow();
+    let mut attrs: Vec<(String, String)> = vec![];
+    for a in el.namespace_attributes().iter().chain(el.attributes().iter()) {
+        let a = a.borrow();
+        let name = qn(a.prefix(), a.local_name());
+        let body = format!(
+            "A({},{})[{}]",
+            name,
+            a.specified() as u8,
+            pieces(a.values().borrow().as_slice())
+        );
+        attrs.push((name, body));
+    }
+    attrs.sort();
+    let kids: Vec<String> = el.children().iter().map(|k| dump_item(&k, depth + 1)).collect();
+    format!(
+        "E({})[{}][{}]",
+        qn(el.prefix(), el.local_name()),
+        attrs.into_iter().map(|a| a.1).collect::<Vec<_>>().join(""),
+        kids.join("")
+    )
+}
+
+fn ext(public: Option<&str>, system: Option<&str>) -> String {
+    format!("{},{}", opt(public), opt(system))
+}
+
+fn dump_doctype(d: &info::XmlNode<info::XmlDocumentTypeDeclaration>) -> String {
+    let d = d.borrow();
+    // children in order: the Display of each child identifies its kind; use the typed accessors
+    let mut kids: Vec<String> = vec![];
+    let text = format!("{}", d);
+    let _ = text;
+    for a in d.attributes().iter() {
+        kids.push(format!("L({})", e(&format!("{}", a.borrow()))));
+    }
+    for en in d.entities().iter() {
+        let en = en.borrow();
+        match en.values() {
+            Some(v) => kids.push(format!("Y({},i)[{}]", e(en.name()), entity_pieces(v))),
+            None => kids.push(format!(
+                "Y({},x,{},{})",
+                e(en.name()),
+                ext(en.public_identifier(), en.system_identifier()),
+                opt(en.notation_name())
+            )),
+        }
+    }
+    for n in d.notations().iter() {
+        let n = n.borrow();
+        kids.push(format!(
+            "N({},{})",
+            e(n.name()),
+            ext(n.public_identifier(), n.system_identifier())
+        ));
+    }
+    for p in DocumentTypeDeclaration::children(&*d).iter() {
+        kids.push(dump_pi(&p));
+    }
+    format!(
+        "T({},{})[{}]",
+        qn(d.prefix(), d.local_name()),
+        ext(d.public_identifier(), d.system_identifier()),
+        kids.join("")
+    )
+}
+
+pub fn dump_doc(doc: &info::XmlNode<info::XmlDocument>) -> String {
+    let d = doc.borrow();
+    let mut tops: Vec<String> = vec![];
+    for k in d.children().iter() {
+        match &*k {
+            info::XmlItem::Comment(c) => tops.push(format!("C({})", e(c.borrow().comment()))),
+            info::XmlItem::PI(p) => tops.push(dump_pi(p)),
+            info::XmlItem::DocumentType(t) => tops.push(dump_doctype(t)),
+            info::XmlItem::Element(el) => tops.push(dump_element(el, 0)),
+            _ => tops.push("?".to_string()),
+        }
+    }
+    let enc = d.character_encoding_scheme();
+    format!(
+        "D({},{},{})[{}]",
+        opt(d.version()),
+        if enc.is_empty() { "~".to_string() } else { e(enc) },
+        match d.standalone() {
+            Some(true) => "y",
+            Some(false) => "n",
+            None => "~",
+        },
+        tops.join("")
+    )
+}
+
+// parse <text>:  `ok rest=<enc> <dump>` | `err:<class>`
+pub fn parse(args: &[String]) -> String {
+    let text = args.first().cloned().unwrap_or_default();
+    let (rest, tree) = match xml_parser::document(&text) {
+        Ok(v) => v,
+        Err(_) => return "err:syntax".to_string(),
+    };
+    match info::XmlDocument::new(&tree) {
+        Ok(doc) => format!("ok rest={} {}", e(rest), dump_doc(&doc)),
+        Err(err) => format!("err:{}", info_err_class(&err)),
+    }
+}
+
+// print <text>: compact serialization of the parsed document: `ok <enc>` | `err:<class>`
+pub fn print(args: &[String]) -> String {
+    let text = args.first().cloned().unwrap_or_default();
+    match XmlDocument::from_raw(&text) {
+        Ok((_, dom)) => format!("ok {}", e(&format!("{}", dom))),
+        Err(err) => match err {
+            xml_dom::error::Error::Info(i) => format!("err:{}", info_err_class(&i)),
+            xml_dom::error::Error::Parse(_) => "err:syntax".to_string(),
+            _ => "err:other".to_string(),
+        },
     }
 }
